@@ -276,6 +276,9 @@ class ProtocolContext:
         elif not isinstance(self._state, WantRply):  # IsInIdle, IsInactive
             self._cmd = self._qos = None
             self._cmd_tx_count = 0  # was: = None
+            # nothing is in flight: drop the finished future now, rather than leave it
+            # until the (deferred) buffer check, c.f. connection_lost() in the interim
+            self._fut = None
 
         assert isinstance(self.is_sending, bool)  # TODO: remove
 
